@@ -307,6 +307,11 @@ def hdl21_naming_encoder(obj: Any) -> Any:
     if dataclasses.is_dataclass(obj):
         return {f.name: getattr(obj, f.name) for f in dataclasses.fields(obj)}
 
+    if isinstance(obj, (set, frozenset)):
+        # Sets iterate in hash order, which differs from one process to the next.
+        # Name them by their elements' own encodings, in sorted order.
+        return sorted(json.dumps(item, default=hdl21_naming_encoder) for item in obj)
+
     # Not an Hdl21 type. Hand off to pydantic.
     return pydantic_json_encoder(obj)
 
